@@ -1,5 +1,5 @@
 (* C18 — proofs about Model/Authority.v *)
-From RipV Require Import Base.Prelude Model.Authority Proofs.AuthorityInv.
+From RipV Require Import Base.Prelude Model.Authority Proofs.AuthorityInv Proofs.AuthorityLive.
 
 (* ------------------------------------------------------------------ witnesses (refutations) *)
 Definition two_servers : list proc := [fresh 1 DServer; fresh 2 DServer].
@@ -147,3 +147,12 @@ Lemma s13_taken : s_took_lock (run true (init (LRec 900) MAbsent two_servers) s1
 Proof. intros X. vm_compute in X. destruct X; discriminate. Qed.
 Lemma live_files_never_taken_full_false : ~ live_files_never_taken_full.
 Proof. intros H. exact (s13_taken (H (LRec 900) MAbsent two_servers s13_sched s13_init_ok)). Qed.
+
+(* ------------------------------------------------------------------ recovery: the hypotheses are satisfiable *)
+Lemma recovers_example :
+  (forall q, In q two_servers -> contender q) /\ nth_error two_servers 1 = Some (fresh 2 DServer)
+  /\ recoverable two_servers (LRec 900) (MRec 901) /\ recoverable two_servers (LHalf 900) MAbsent.
+Proof.
+  split; [intros q [<-|[<-|[]]]; left; reflexivity|]. split; [reflexivity|].
+  split; constructor; reflexivity.
+Qed.
